@@ -1,6 +1,7 @@
 import Pocket.Src.Layout
 import Pocket.Model.Event
 import Pocket.Model.Filter
+import Pocket.Lemmas.Layout
 /- What the source says NOW about the binary layout of an event (`Pocket/Src/Layout.lean`: the contiguous writes of
 `Event::from_parts`, `output_size_needed`, and the offsets the accessors read at, translated from event.rs on every check
 run) against the model's encoder and decoder, which the round-trip, canonical-form and read-back theorems are about.
@@ -179,5 +180,107 @@ theorem tag_readers_from_source (inp : Bytes) :
     | ok len => by_cases h2 : inp.length < len <;> simp [h2] <;> rfl
     | err => rfl
     | panic => rfl
+
+/-! ### the writer of the tag section -/
+
+theorem wr_mid (A Y v : Bytes) (pos : Nat) (h : pos = A.length) :
+    Src.wr (A ++ Y) pos v = A ++ v ++ Y.drop v.length := by
+  subst h
+  simp [Src.wr, List.drop_append]
+
+theorem strs_write (tag : List Bytes) (A Y : Bytes) (p : Nat) (hp : p = A.length) (hy : strsSize tag ≤ Y.length) :
+    tag.foldl (fun (st : Bytes × Nat) s =>
+          let (output, p) := st
+          let output := Src.wr output p (le16 s.length)
+          let p := p + 2
+          let output := Src.wr output p s
+          let p := p + s.length
+          (output, p)) (A ++ Y, p) = (A ++ encStrs tag ++ Y.drop (strsSize tag), p + strsSize tag) := by
+  induction tag generalizing A Y p with
+  | nil => simp [encStrs, strsSize]
+  | cons s ss ih =>
+    simp only [List.foldl_cons, strsSize] at hy ⊢
+    rw [wr_mid A Y _ p hp]
+    rw [wr_mid (A ++ le16 s.length) (Y.drop (le16 s.length).length) s (p + 2) (by simp [hp])]
+    have := ih (A ++ le16 s.length ++ s) (List.drop s.length (List.drop (le16 s.length).length Y)) (p + 2 + s.length)
+      (by simp [hp]; omega) (by simp; omega)
+    rw [this]
+    simp [encStrs, encStr, List.append_assoc, List.drop_drop]
+    omega
+
+theorem tags_write_loop (todo : TagsRec) (Hd O X B Y : Bytes) (p n : Nat)
+    (hO : O.length = 2 * n) (hH : Hd.length = 4) (hX : X.length = 2 * todo.length)
+    (hp : p = 4 + O.length + X.length + B.length) (hy : tagsBodySize todo ≤ Y.length) :
+    (todo.foldl (fun (st : Bytes × Nat × Nat) tag =>
+      let (output, p, n) := st
+      let output := Src.wr output (4 + 2 * n) (le16 p)
+      let output := Src.wr output p (le16 tag.length)
+      let p := p + 2
+      let (output, p) := tag.foldl (fun (st : Bytes × Nat) s =>
+          let (output, p) := st
+          let output := Src.wr output p (le16 s.length)
+          let p := p + 2
+          let output := Src.wr output p s
+          let p := p + s.length
+          (output, p)) (output, p)
+      (output, p, n + 1)) (Hd ++ O ++ X ++ B ++ Y, p, n)).1
+      = Hd ++ O ++ encOffsets p todo ++ B ++ encTagsBody todo ++ Y.drop (tagsBodySize todo) := by
+  induction todo generalizing O X B Y p n with
+  | nil =>
+    have : X = [] := List.eq_nil_of_length_eq_zero (by simpa using hX)
+    simp [encOffsets, encTagsBody, tagsBodySize, this]
+  | cons t rest ih =>
+    match X, hX with
+    | x0 :: x1 :: X', hX =>
+      simp only [List.foldl_cons]
+      have e1 : Hd ++ O ++ (x0 :: x1 :: X') ++ B ++ Y = (Hd ++ O) ++ ((x0 :: x1 :: X') ++ B ++ Y) := by simp
+      rw [e1, wr_mid (Hd ++ O) _ (le16 p) (4 + 2 * n) (by simp [hH, hO])]
+      have e2 : Hd ++ O ++ le16 p ++ List.drop (le16 p).length (x0 :: x1 :: X' ++ B ++ Y)
+          = (Hd ++ (O ++ le16 p) ++ X' ++ B) ++ Y := by simp
+      rw [e2, wr_mid _ Y (le16 t.length) p (by simp [hH] at hp ⊢; omega)]
+      simp only [tagsBodySize, tagSize, List.length_cons] at hy hX
+      rw [strs_write t _ _ (p + 2) (by simp [hH] at hp ⊢; omega) (by simp; omega)]
+      have e3 : Hd ++ (O ++ le16 p) ++ X' ++ B ++ le16 t.length ++ encStrs t ++ List.drop (strsSize t) (List.drop (le16 t.length).length Y)
+          = Hd ++ (O ++ le16 p) ++ X' ++ (B ++ encTag t) ++ List.drop (strsSize t) (List.drop (le16 t.length).length Y) := by
+        simp [encTag]
+      rw [e3]
+      have := ih (O ++ le16 p) X' (B ++ encTag t) (List.drop (strsSize t) (List.drop (le16 t.length).length Y)) (p + 2 + strsSize t) (n + 1)
+        (by simp [hO]; omega) (by omega) (by simp [encTag, encStrs_length] at hp ⊢; omega) (by simp; omega)
+      rw [this]
+      simp [encOffsets, encTagsBody, tagSize, List.append_assoc, List.drop_drop]
+      rw [show p + 2 + strsSize t = p + (2 + strsSize t) by omega]
+      simp [tagsBodySize, tagSize]
+
+/-- **the two write loops of `Tags::from_parts`**, translated statement by statement on every run into random-access writes through the
+moving `p` (`Src.tagsWrite`): on every list of tags and every buffer at least as long as the section they produce the model's
+`encodeTags ts` followed by the untouched rest of the buffer -/
+theorem tags_writer_from_source (ts : TagsRec) (buf : Bytes) (h : tagsSize ts ≤ buf.length) :
+    Src.tagsWrite ts buf = encodeTags ts ++ buf.drop (tagsSize ts) := by
+  unfold Src.tagsWrite
+  simp only [tags_size_from_source]
+  have e0 : Src.wr (Src.wr buf 0 (le16 (tagsSize ts))) 2 (le16 ts.length) =
+      (le16 (tagsSize ts) ++ le16 ts.length) ++ [] ++ (buf.drop 4).take (2 * ts.length) ++ [] ++ buf.drop (4 + 2 * ts.length) := by
+    have := wr_mid [] buf (le16 (tagsSize ts)) 0 rfl
+    simp only [List.nil_append] at this
+    rw [this, wr_mid (le16 (tagsSize ts)) _ (le16 ts.length) 2 (by simp)]
+    simp [List.drop_drop]
+    rw [show List.drop (4 + 2 * ts.length) buf = List.drop (2 * ts.length) (List.drop 4 buf) by simp [List.drop_drop],
+      List.take_append_drop]
+  rw [e0, tags_write_loop ts _ [] _ [] _ _ 0 (by simp) (by simp) (by simp [tagsSize] at h ⊢; omega) (by simp [tagsSize] at h ⊢; omega)
+    (by simp [tagsSize] at h ⊢; omega)]
+  simp [encodeTags, tagsSize, List.drop_drop, List.append_assoc]
+
+/-- `Tags::from_parts` as a whole, as the source spells it today: rejections, then the writer -/
+theorem tags_from_parts_whole_from_source (ts : TagsRec) (buf : Bytes) :
+    tagsFromParts ts buf =
+      if Src.tagsRejects (Src.tagsSize ts) buf.length then .err else .ok (Src.tagsWrite ts buf) := by
+  rw [tags_size_from_source]
+  unfold tagsFromParts Src.tagsRejects
+  by_cases h1 : tagsSize ts > 65535
+  · simp [h1]
+  · by_cases h2 : buf.length < tagsSize ts
+    · simp [h1, h2]
+    · simp only [h1, h2, if_false, decide_false, Bool.or_false, Bool.false_eq_true]
+      rw [tags_writer_from_source ts buf (by omega)]
 
 end Pocket
